@@ -35,3 +35,22 @@ Theorem C04_add_typedef_clash : forall (P: Type) (s: pstate P) n c top rest,
   scopes P s = top :: rest -> scope_get n top = Some false -> exists l m, add_typedef_name P n c s = Err l m.
 Proof. exact add_typedef_clash. Qed.
 Print Assumptions C04_add_typedef_clash.
+
+(* For every history of scope entries, scope exits and declarations accepted by the parser's scope
+   operations, the stack-of-dictionaries model answers exactly as C's block-scope rule read off the
+   history: the nearest declaration still in scope decides (specification lookup_back scans the
+   history backwards, skipping closed blocks). *)
+Theorem C04_scope_refines : forall evs scs n,
+  run_events evs [[]] = Some scs -> is_type_in n scs = lookup_back (rev evs) 0 n.
+Proof. exact scope_refines. Qed.
+Print Assumptions C04_scope_refines.
+
+Theorem C04_add_identifier_is_decl : forall (P: Type) (s s': pstate P) n c,
+  add_identifier P n c s = Ok (tt, s') -> run_events [EDecl n false] (scopes P s) = Some (scopes P s').
+Proof. exact add_identifier_is_decl. Qed.
+Print Assumptions C04_add_identifier_is_decl.
+
+Theorem C04_add_typedef_is_decl : forall (P: Type) (s s': pstate P) n c,
+  add_typedef_name P n c s = Ok (tt, s') -> run_events [EDecl n true] (scopes P s) = Some (scopes P s').
+Proof. exact add_typedef_is_decl. Qed.
+Print Assumptions C04_add_typedef_is_decl.
